@@ -257,7 +257,7 @@ def C03(ctx):
 
 
 def C12(ctx):
-    ctx.rule = ("case = (stream kind: single link | 3-link chain | small pages) x (scenario: open, open+read-all, pcm_seek, pcm_seek_page, time_seek, time_seek_page, raw_seek, "
+    ctx.rule = ("case = (stream kind: single link | 3-link chain | small pages | hand-built pages where some pages hold nothing but the tail of a packet begun on the previous page) x (scenario: open, open+read-all, pcm_seek, pcm_seek_page, time_seek, time_seek_page, raw_seek, "
                 "pcm_seek_lap, time_seek_page_lap, raw_seek_lap, halfrate toggle, crosslap, seek+reads, ov_test+ov_test_open, 16-bit reads interleaved with seeks, time_seek_lap, pcm_seek_page_lap): the scenario is first run fault-free to count its read/seek/tell callback "
                 "invocations K; then for EVERY invocation index k < K (stratified to 300 per kind in quick when K is larger; all up to 4000 in thorough) x 5 fault kinds (read "
                 "error with errno, premature zero read, one-byte read, seek -1, tell -1) x {one-shot, persistent} it is re-run on a fresh handle with the fault planted at k; "
@@ -267,12 +267,12 @@ def C12(ctx):
                 "1500 samples are bit-identical to the never-faulted reference; sanitizers and the CPU budget (hang) judge the rest; bucket = (scenario, fault kind, stream kind)")
     ctx.assumptions = TRUST_COMMON + ["faults are injected by the application-side callbacks; short, one-byte and premature-zero reads may legitimately end in success or EOF",
                                       "a handle opened while a short read hid part of the file is judged for safety and termination only (the statement promises recovery for failures after a successful open)"]
-    ctx.run("san", "vffault", "c12", _n(ctx.tier, 816, 12240), extra_src=SPEC, env_extra={"VH_CPU": "120"})
+    ctx.run("san", "vffault", "c12", _n(ctx.tier, 1088, 13600), extra_src=SPEC, env_extra={"VH_CPU": "120"})
     return ctx.finish(min_evals=15000, min_buckets=120)
 
 
 def C18(ctx):
-    ctx.rule = ("14 pipeline kinds (5 encoder configurations incl. managed and 5.1, packet decode, vorbisfile linear / seek script / lapped seeks / half-rate / streaming on SHARED "
+    ctx.rule = ("15 pipeline kinds (5 encoder configurations incl. managed and 5.1, encodes of streams shorter than one block, packet decode, vorbisfile linear / seek script / lapped seeks / half-rate / streaming on SHARED "
                 "read-only input bytes, model-made stream decode, header+comment operations, encode-mux-decode); (1) TSan build: rounds of 16 threads released by a barrier, each "
                 "running a pipeline whose solitary output hash was computed beforehand; any ThreadSanitizer report or any hash differing from the solitary run fails; (2) the same "
                 "under ASan; (3) repeatability: every pipeline is run in separate processes under three allocator fill regimes (malloc/free fill 0x00, 0xA5, 0xFF through the "
@@ -286,7 +286,7 @@ def C18(ctx):
     ctx.run("san", "thrmon", "c18t", 4 if quick else 60, batch=1, extra_src=SPEC, workers=2 if quick else 4, timeout=1800)
     base = run.SAN_ENV["ASAN_OPTIONS"]
     regimes = [("fill00", "malloc_fill_byte=0:free_fill_byte=0", "0x00"), ("fillA5", "malloc_fill_byte=165:free_fill_byte=90", "0xA5"), ("fillFF", "malloc_fill_byte=255:free_fill_byte=255", "0x7F")]
-    ncase = 14 * (3 if quick else 40)
+    ncase = 15 * (3 if quick else 40)
     hashes = {}
     for name, opt, stack in regimes:
         recs = ctx.run("san", "thrmon", "c18h", ncase, extra_src=SPEC,
@@ -298,15 +298,15 @@ def C18(ctx):
         if len(hs) == len(regimes):
             ncmp += 1
             if len(set(hs.values())) != 1:
-                ctx.viols.append({"prop": "C18", "key": "output-depends-on-memory-contents:pipeline-%d" % (cid % 14),
+                ctx.viols.append({"prop": "C18", "key": "output-depends-on-memory-contents:pipeline-%d" % (cid % 15),
                                   "detail": "case %d: hashes per fill regime %s" % (cid, hs),
                                   "replay": {"flavour": "san", "driver": "thrmon", "mode": "c18h", "seed": ctx.seed, "tier": ctx.tier, "case": cid, "extra": [], "env": {}}})
             else:
-                ctx.buckets.add("c18h|fill-regimes-agree|pipeline-%d" % (cid % 14))
+                ctx.buckets.add("c18h|fill-regimes-agree|pipeline-%d" % (cid % 15))
     ctx.evals += ncmp
     ctx.add_count("fill_regime_comparisons", ncmp)
     vg = ["valgrind", "-q", "--error-exitcode=88", "--undef-value-errors=yes", "--track-origins=no", "--leak-check=no", "--max-stackframe=8388608"]
-    ctx.run("plain", "thrmon", "c18h", 14 if quick else 140, batch=1, extra_src=SPEC, wrapper=vg, timeout=3000,
+    ctx.run("plain", "thrmon", "c18h", 15 if quick else 150, batch=1, extra_src=SPEC, wrapper=vg, timeout=3000,
             env_extra={"VH_CPU": "2000"})
     return ctx.finish(min_evals=100, min_buckets=40)
 
@@ -403,7 +403,7 @@ META.update({
                           "failed opens leave a zeroed handle and an unclosed source, no call exceeds its CPU budget; " + _SAN,
             "level_note": "Trusted: libogg, harness damage operators. A clean sanitizer run is not memory safety."},
     "C12": {"technique": "runtime monitor: exhaustive-by-index callback fault injection with error-surfacing, no-hidden-close and recovery-vs-reference oracles, under ASan+UBSan",
-            "level_text": "Held on the executions observed: every callback invocation index of 17 scenarios x 3 stream kinds x 5 fault kinds x one-shot/persistent (tens of thousands of faulted "
+            "level_text": "Held on the executions observed: every callback invocation index of 17 scenarios x 4 stream kinds x 5 fault kinds x one-shot/persistent (tens of thousands of faulted "
                           "runs per quick run): failures surface as error codes or EOF, nothing is closed behind the caller, nothing hangs, and after the fault clears seeks and reads equal a "
                           "never-faulted decode; " + _SAN,
             "level_note": "Trusted: harness callbacks and reference decode. Enumeration is exhaustive per scenario up to the stated per-kind cap."},
